@@ -194,6 +194,10 @@ class Sky130Walker(h.HierarchyWalker):
         #     msg = f"Mos module choice not well-defined given parameters {args}"
         #     raise RuntimeError(msg)
 
+        if not subset:
+            msg = f"No Mos module for parameters {args}"
+            raise RuntimeError(msg)
+
         # Return the first one (supported as of 3.7)
         return next(iter(subset.values()))
 
@@ -308,7 +312,7 @@ class Sky130Walker(h.HierarchyWalker):
 
         mod = self.diode_module(params)
 
-        if params.w is not None and params.w is not None:
+        if params.w is not None and params.l is not None:
             # This scaling is a quirk of SKY130
             a = params.w * params.l * 1 * TERA
             pj = 2 * (params.w + params.l) * MEGA
